@@ -118,3 +118,10 @@ check(
     "Memory-safety verdicts come from the standalone link of the same C source (not the extension binary); leak detection off (known leak in ptnghb is not a C20 clause); hp01 excluded as documented experimental.",
     "DESIGN.md section 5 C20",
 )
+check(
+    "C12",
+    "Hypothesis-generated physical truths encoded in memory in each model's native convention by independent builders (WW3, SWAN netCDF, WWM, ERA5, NDBC), passed through read_dataset / from_<model>, and compared bin by bin at the label of the same physical direction, plus native-units variance vs converted-coordinates variance, wind components vs speed/coming-from direction and the NDBC Longuet-Higgins reconstruction",
+    "Thousands (quick) / tens of thousands (thorough) of native datasets per model with any direction order and offset, lon/lat with or without a time dimension, optional variables present or absent, ERA5 missing values, NDBC with and without directional moments. Exploration.",
+    "Native layouts are built in memory from the format descriptions (no netCDF4 backend is installed, so the file-opening halves of ncswan / wwm / ndbc readers cannot be exercised here); ERA5 frequencies / directions are passed through the documented arguments.",
+    "DESIGN.md section 5 C12",
+)
